@@ -79,6 +79,10 @@ def run(ctx):
             # the PRIVATE KEY label promises PKCS#8: the document stored for a generated key must be PKCS#8 by type
             import c11
             common.borrow_rules(rep, lambda: c11.check_generate(cfg, crate, rep), "C11.", "C14.doc")
+            # "rcgen's own PEM loaders accept that text": the loaders behind the PEM entry points try / accept every key type
+            # of the back end (explicit tables and the auto-detecting cascade)
+            if cfg in ("K1", "K2"):
+                common.borrow_rules(rep, lambda: c11.check_pairs(cfg, crate, rep, {}), "C11.", "C14.keys")
         n = 0
         for fn, (label, src, via) in SITES.items():
             if fn not in crate.bodies:
